@@ -18,18 +18,18 @@ open Utcp Utcp.Gen
 theorem deltaSeq_pos_iff (n : Notify) (h : NotifHeader) :
     n.deltaSeq h > 0 ↔ (seq_num_greater_than h.seq n.inSeq = true ∧ seq_num_greater_equal h.ackedSeq n.outAckSeq = true
       ∧ seq_num_greater_than n.outSeq h.ackedSeq = true ∧ seq_num_diff h.seq n.inSeq > 0) := by
-  unfold Notify.deltaSeq
+  rw [Notify.deltaSeq_eq]; unfold Notify.deltaSeqSpec
   by_cases h1 : seq_num_greater_than h.seq n.inSeq = true <;> by_cases h2 : seq_num_greater_equal h.ackedSeq n.outAckSeq = true <;>
     by_cases h3 : seq_num_greater_than n.outSeq h.ackedSeq = true <;> simp [h1, h2, h3]
 
 /-- a header that is not circularly newer than the last accepted one is stale -/
 theorem stale_of_not_newer (n : Notify) (h : NotifHeader) (hs : seq_num_greater_than h.seq n.inSeq = false) : n.deltaSeq h = 0 := by
-  unfold Notify.deltaSeq; simp [hs]
+  rw [Notify.deltaSeq_eq]; unfold Notify.deltaSeqSpec; simp [hs]
 
 /-- a header acknowledging something outside `[OutAckSeq, OutSeq)` is refused -/
 theorem stale_of_bad_ack (n : Notify) (h : NotifHeader)
     (hs : seq_num_greater_equal h.ackedSeq n.outAckSeq = false ∨ seq_num_greater_than n.outSeq h.ackedSeq = false) : n.deltaSeq h = 0 := by
-  unfold Notify.deltaSeq
+  rw [Notify.deltaSeq_eq]; unfold Notify.deltaSeqSpec
   rcases hs with hs | hs <;> simp [hs]
 
 /-- **stale packets are inert** at the packet layer: the connection is returned unchanged (same state, same log) -/
